@@ -324,12 +324,11 @@ def run(tier, seed):
     W, maxops = (3, 3) if quick else (3, 4)
     alphabet = [("H", 1, "FALSE"), ("RX", 1, "FALSE"), ("CNOT", 2, "FALSE"), ("Toffoli", 3, "TRUE"), ("GP", 0, "FALSE"), ("M", 1, "FALSE"),
                 ("Cond", 1, "FALSE")]
-    if not quick:
-        alphabet = [a for a in alphabet if a[0] != "RX"]
+    alphabet = [a for a in alphabet if a[0] != "RX"]          # one single-wire type keeps the enumeration small; types differ by arity anyway
     defs = {"Alphabet": "{" + ", ".join(f'[g |-> "{g}", k |-> {k}, sym |-> {s}]' for g, k, s in alphabet) + "}",
             "Coefs": "{-1, 1, 2}" if quick else "{-2, -1, 1, 3}", "Scalars": "{-1, 0, 3}", "SubVals": "{0, 2}" if quick else "{-1, 0, 2}",
             "Envs": "{<<2, 3>>, <<-1, 2>>, <<0, 1>>, <<1, 0>>}"}
-    g = lib.run_tlc_mc("SpecsGen", defs, lib.workdir("C46", "gen"), constants={"W": W, "MaxOps": maxops, "NV": 2}, init="InitAll", next_="NextAll",
+    g = lib.run_tlc_mc("SpecsGen", defs, lib.workdir("C46", "gen"), constants={"W": W, "MaxOps": maxops, "NV": 2, "SpreadKinds": "TRUE"}, init="InitAll", next_="NextAll",
                        invariants=["LawsC", "LawsP"], timeout=3000)
     if g.invariant_violated:
         raise lib.MachineryError(f"SpecsModel violates its own law {g.invariant_violated} (oracle error): " + g.out[-1500:])
@@ -345,9 +344,15 @@ def run(tier, seed):
     n_eval = 0
     dev = qp.device("default.qubit")
     # ---------------------------------------------------------------- (R1) circuits
+    for case in circ:
+        if not case["exp"]["counts"]:
+            case["exp"]["counts"] = {}                      # TLC prints the empty function as []
     for ci, case in enumerate(circ):
         exp = dict(case["exp"], counts={names[k]: v for k, v in case["exp"]["counts"].items()})
         label = " ".join(f"{o['g']}{o['w']}" for o in case["ops"]) + " | " + case["meas"]
+        if exp["wires"] == 0 and exp["total"] > 0:
+            st["degenerate_circuits_without_any_wire"] += 1          # only wire-less operations and a measurement of "all" (= no) wires
+            continue
         ops = build_ops(case["ops"])
         tape = qp.tape.QuantumScript(ops, [build_meas(case["meas"], W)])
         outs = [("tape.specs", observe(tape.specs["resources"]), True)]
@@ -380,11 +385,11 @@ def run(tier, seed):
             nontriv.add(label)
             if len(samples) < 2 and seq and ci % 11 == 0:
                 samples.append({"circuit": label, "expected": exp})
-    # negative control of the comparator
+    # negative control of the comparator (synthetic: the expectation against a corrupted copy of itself)
     probe = next(x for x in circ if x["exp"]["total"] == 3 and x["exp"]["depth"] == 2)
     pexp = dict(probe["exp"], counts={names[k]: v for k, v in probe["exp"]["counts"].items()})
-    pobs = observe(qp.tape.QuantumScript(build_ops(probe["ops"]), [build_meas(probe["meas"], W)]).specs["resources"])
-    if compare(pobs, pexp) is not None or compare(pobs, dict(pexp, depth=3)) != "depth" or compare(pobs, dict(pexp, wires=pexp["wires"] + 1)) != "num-wires":
+    if compare(dict(pexp), pexp) is not None or compare(dict(pexp, depth=3), pexp) != "depth" or \
+            compare(dict(pexp, wires=pexp["wires"] + 1), pexp) != "num-wires":
         raise lib.MachineryError("negative control accepted by the summary comparator")
     neg_cmp = 2
     tick("circuits replayed")
@@ -437,7 +442,7 @@ def run(tier, seed):
                      {"case": case})
     probe = next(x for x in poly if x["op"] == "mul" and len(x["res"]) >= 2)
     badp = dict(probe, res=[[m, k + 1] for m, k in probe["res"]])
-    res0 = poly_outcomes(probe)[0][1]
+    res0 = to_obj(probe["res"])                                   # synthetic: the expected object against a corrupted expectation
     if poly_compare(res0, probe) is not None or poly_compare(res0, badp) is None:
         raise lib.MachineryError("negative control accepted by the polynomial comparator")
     neg_cmp += 1
@@ -476,17 +481,22 @@ def run(tier, seed):
         def f(x, thunks=thunks, meas=meas, ws=ws):
             qp.RY(x, ws[0])
             realise(thunks, in_qnode=True)
-            return tuple(meas()) if len(meas()) > 1 else meas()[0]
+            ms = meas()
+            return tuple(ms) if len(ms) > 1 else ms[0]
         qn = qp.QNode(f, dev)
         for n in pipeline:
             qn = TRANSFORMS[n](qn)
         x = 0.37
-        base = qp.tape.QuantumScript([qp.RY(x, ws[0])] + realise(thunks), meas())
+
+        def fresh_base(thunks=thunks, meas=meas, ws=ws):
+            # a new tape for every use: some transforms modify the tape they are given
+            return qp.tape.QuantumScript([qp.RY(x, ws[0])] + realise(thunks), meas())
+        n_base = len(fresh_base().operations)
         levels = list(range(len(pipeline) + 1)) + ["top", "user"]
         for lvl in levels:
             k = {"top": 0, "user": len(pipeline)}.get(lvl, lvl)
             try:
-                expected = apply_by_hand(base, pipeline[:k])
+                expected = apply_by_hand(fresh_base(), pipeline[:k])
                 s = qp.specs(qn, level=lvl)(x)
             except Exception as e:  # noqa: BLE001 - a transform that rejects the circuit is not a statement about specs
                 st["pipeline_levels_skipped"] += 1
@@ -500,7 +510,7 @@ def run(tier, seed):
             st["recorded_batched_levels"] += len(rep) > 1
             for bi, (tp, rs) in enumerate(zip(expected, rep)):
                 recs.append(record(tp, rs, f"qp.specs(qnode, level={lvl!r}) pipeline={pipeline} tape {bi}"))
-                st["levels_that_changed_the_circuit"] += k > 0 and len(tp.operations) != len(base.operations)
+                st["levels_that_changed_the_circuit"] += k > 0 and len(tp.operations) != n_base
         # device / gradient level: the circuit is the one the workflow constructs for that level
         for lvl in ("gradient", "device"):
             try:
@@ -517,12 +527,16 @@ def run(tier, seed):
     tick(f"recorded {len(recs)} summaries")
     # negative controls: one field of a correct record corrupted -> Trace_Specs must name that field
     neg = []
-    src = next(r for r in recs if r["rep"]["depth"] >= 2 and len(r["rep"]["counts"]) >= 2 and r["rep"]["depth"] < r["rep"]["total"])
+    src = {"ops": [{"g": "Hadamard", "w": [0], "dep": []}, {"g": "CNOT", "w": [0, 1], "dep": []}, {"g": "Hadamard", "w": [1], "dep": []},
+                   {"g": "PauliX", "w": [2], "dep": []}], "mw": [0, 3], "where": "synthetic",
+           "rep": {"counts": [["CNOT", 1], ["Hadamard", 2], ["PauliX", 1]], "total": 4, "wires": 4, "depth": 3}}      # hand-written, correct
+    neg.append((len(recs), "ok", src))
     for fld, expect in (("depth", "depth"), ("wires", "num-wires"), ("total", "total-operations")):
         neg.append((len(recs) + len(neg), expect, dict(src, rep=dict(src["rep"], **{fld: src["rep"][fld] + 1}))))
     c2 = [list(x) for x in src["rep"]["counts"]]
     c2[0][1] += 1
     neg.append((len(recs) + len(neg), "gate-counts", dict(src, rep=dict(src["rep"], counts=c2))))
+    neg.append((len(recs) + len(neg), "gate-counts", dict(src, rep=dict(src["rep"], counts=src["rep"]["counts"][:2]))))
     allrecs = recs + [n[2] for n in neg]
     wd = lib.workdir("C46", "trace")
     (wd / "traces.json").write_text(json.dumps([{k: v for k, v in r.items() if k != "where"} for r in allrecs]))
@@ -541,6 +555,9 @@ def run(tier, seed):
         if v == "oracle-definitions-disagree":
             raise lib.MachineryError(f"SpecsModel's two depth definitions disagree on {rc['ops']}")
         rep = rc["rep"]
+        if rc["ops"] and not rc["mw"] and not any(o["w"] for o in rc["ops"]):
+            st["degenerate_circuits_without_any_wire"] += 1
+            continue
         if v != "ok":
             flag(f"{rc['where'].split('(')[0]}:{v}", f"{rc['where']}: {v}: reported {rep} for circuit {rc['ops']} measured wires {rc['mw']}",
                  {"record": rc})
@@ -568,7 +585,7 @@ def run(tier, seed):
            "samples": samples, "exhaustive": True,
            "model": {"module": "SpecsModel / SpecsGen", "invariants": ["LawsC", "LawsP"], "circuits": len(circ), "polynomial_cases": len(poly),
                      "W": W, "MaxOps": maxops, "alphabet": [a[0] for a in alphabet]},
-           "negative_controls_rejected": neg_cmp + len(neg), "tlc_wall_s": [round(g.wall_s, 1), round(r.wall_s, 1)],
+           "negative_controls_rejected": neg_cmp + len(neg) - 1, "tlc_wall_s": [round(g.wall_s, 1), round(r.wall_s, 1)],
            **{k: int(v) for k, v in st.items()}}
     return CheckResult(coverage=cov, violations=viol, assumptions=[
         "the reported name of an operation type is the name attribute of its instances (codec); measurement-process strings are not judged",
